@@ -11,7 +11,7 @@ ENGINES = [
 
 ENGINES.append(
     {"name": "E3-enumerate", "path": "vf/props/",
-     "serves_properties": ["C02", "C07", "C09", "C20"],
+     "serves_properties": ["C02", "C07", "C08", "C09", "C20"],
      "kind_free_text": "small-scope exhaustive enumerators (compositions, "
      "all boolean masks / NaN placements, option products) run against the "
      "real code with a reference oracle per case"})
@@ -248,5 +248,30 @@ CHECKS = {
                 "logs; split+join round trips.",
         "note": "ties generated with equal run index; index_online excluded "
                 "from the round trip (join makes it continuous by design)",
+    },
+    "C08": {
+        "engine": "E3-enumerate",
+        "level": "exploration",
+        "technique": "exhaustive enumeration of a storage-layout x dataset-"
+                     "kind matrix x tasks x options with a structural HDF5 "
+                     "comparator",
+        "text": "11 generated file variants rotate 11 storage layouts "
+                "(contiguous, chunked, chunks larger than the data, gzip, "
+                "lzf, zstd-1/5/9, +/- fletcher32) over 12 scalar features, "
+                "3 image-like features, 3 traces, 6 contour entries, 15 "
+                "logs (fixed/variable-length, empty, >100 chars), 4 "
+                "compound tables with attributes, internal + file basin "
+                "definitions; compress, repack (4 option combinations) and "
+                "condense (4 option combinations) are run on each; every "
+                "input dataset/attribute must be in the output with equal "
+                "values, the input hash unchanged, a second application "
+                "changes no data, condense's scalar features (stored, "
+                "basin, computed) equal the input's through dclab; "
+                "tdms2rtdc on 3 (quick) / 7 fixtures x compute flag equals "
+                "the .tdms source.",
+        "note": "zero-length datasets count as absent; variable-length logs "
+                "may become fixed-length (text compared); unknown extra "
+                "feature names and defective-feature markers are outside "
+                "(dclab skips them by documented design)",
     },
 }
